@@ -809,7 +809,9 @@ fn main() {
                 th_chaos_unmanaged(&args, &mut rep, prop, sc(150.0, 3000.0), false);
             }
             if args.engine_enabled("uth_race") {
-                th_race(&args, &mut rep, prop, sc(300.0, 12_000.0), true, prop == "C12");
+                // close() against a returning object is a window of a few instructions: C12 gets three times the rounds
+                let n = if prop == "C12" { sc(900.0, 24_000.0) } else { sc(300.0, 12_000.0) };
+                th_race(&args, &mut rep, prop, n, true, prop == "C12");
             }
             if args.engine_enabled("uth_hammer") {
                 th_chaos_unmanaged(&args, &mut rep, prop, sc(250.0, 6000.0), true);
